@@ -26,9 +26,9 @@ type sub struct {
 	state  string // "" | opening | open | closing | closed
 	from   int    // stream index where the current round's window starts
 	inWin  bool
-	gap    int // stream index from which events lie between rounds
-	frozen int // stream length once the handler had returned
-	opened int // round
+	gap    int  // stream index from which events lie between rounds
+	frozen int  // stream length once the handler had returned
+	opened int  // round
 	during bool // subscribed while round `opened` was running
 	tag    string
 }
@@ -52,8 +52,8 @@ type runner struct {
 
 	// measured
 	nReqWindows, nOptWindows, nEvents, nChanges, nSilent, nContended, nEvicted, nDestroyed int
-	maxSenders, nDoubleClaims, nIdleChanged                                               int
-	overlaps                                                                              int64
+	maxSenders, nDoubleClaims, nIdleChanged                                                int
+	overlaps                                                                               int64
 }
 
 func (x *runner) inconclusive(s string) {
